@@ -18,7 +18,8 @@ Definition opt_n_eqb (a c : option N) : bool :=
   match a, c with None, None => true | Some x, Some y => x =? y | _, _ => false end.
 Definition lreq_eqb (a c : bytes * option N) : bool := bytes_eqb (fst a) (fst c) && opt_n_eqb (snd a) (snd c).
 
-(* ---- C15 *)
+(* ---- C15: [raw] is the prefix value the caller gave to OcflRepo::s3_repo / init_s3_repo
+   ("" for None); the client works with [client_prefix raw] (s3.rs:741) *)
 
 (** the ListObjectsV2 requests of one list_prefix call: (prefix parameter, continuation token) *)
 Definition listing_requests (psize : nat) (keys : list bytes) (cp path : bytes) (delim : bool) : list (bytes * option N) :=
@@ -29,8 +30,9 @@ Definition scan_fuel (keys : list bytes) : nat := (16 + 4 * List.length (List.co
 
 (** list_objects without glob: the object roots InventoryIter finds, in order, and every
     ListObjectsV2 request it sends, in order.  obs_class: 0 = answered, 2 = panicked *)
-Definition check_scan (psize : N) (keys : list bytes) (cp : bytes) (obs_class : N)
+Definition check_scan (psize : N) (keys : list bytes) (raw : bytes) (obs_class : N)
            (obs_roots : list bytes) (obs_reqs : list (bytes * option N)) : bool :=
+  let cp := client_prefix raw in
   match scan_roots (scan_fuel keys) keys cp with
   | Some (Ok (roots, listed)) =>
       (obs_class =? 0) && list_eqb bytes_eqb roots obs_roots &&
@@ -55,17 +57,20 @@ Definition res_lists_eqb (x y : res (list bytes * list bytes)) : bool :=
   | Panic, Panic => true
   | _, _ => false
   end.
-Definition check_paging (psize : N) (keys : list bytes) (cp path : bytes) (delim : bool) : bool :=
+Definition check_paging (psize : N) (keys : list bytes) (raw path : bytes) (delim : bool) : bool :=
+  let cp := client_prefix raw in
   match list_paged (N.to_nat psize) keys cp path delim with
   | Some r => res_lists_eqb r (list_all keys cp path delim)
   | None => false
   end.
 
 (** keys of the file tree of the filesystem repository = keys of the bucket (with content tokens) *)
-Definition check_keys_of_tree (cp : bytes) (t : tree) (obs : list (bytes * bytes)) : bool :=
+Definition check_keys_of_tree (raw : bytes) (t : tree) (obs : list (bytes * bytes)) : bool :=
+  let cp := client_prefix raw in
   tree_wf t && pairs_set_eqb (keys_of_tree cp t) obs.
 (** and back: every bucket key cut into segments is a file of the tree with the same content *)
-Definition check_paths_of_keys (cp : bytes) (t : tree) (obs : list (bytes * bytes)) : bool :=
+Definition check_paths_of_keys (raw : bytes) (t : tree) (obs : list (bytes * bytes)) : bool :=
+  let cp := client_prefix raw in
   let fl := flatten t in
   Nat.eqb (List.length fl) (List.length obs) &&
   forallb (fun kc => match path_of_key cp (fst kc) with
@@ -73,14 +78,17 @@ Definition check_paths_of_keys (cp : bytes) (t : tree) (obs : list (bytes * byte
                      | _ => false
                      end) obs.
 (** S3Storage::list of the repository root, recursive = all file paths *)
-Definition check_storage_list_all (keys : list bytes) (cp : bytes) (t : tree) : bool :=
+Definition check_storage_list_all (keys : list bytes) (raw : bytes) (t : tree) : bool :=
+  let cp := client_prefix raw in
   match storage_list keys cp [] true with
   | Ok l => let fl := map (fun pc => concat_slash (fst pc)) (flatten t) in
             Nat.eqb (List.length l) (List.length fl) &&
             forallb (fun e => negb (fst e) && existsb (bytes_eqb (snd e)) fl) l
   | _ => false
   end.
-Definition known_c15 (cp : bytes) : bool := c15_prefix_trailing_slash cp.
+(** the stored prefix as a directory name, for the driver's own bookkeeping (must equal
+    vplib.s3stub.norm_prefix) *)
+Definition stored_prefix_is (raw expected : bytes) : bool := bytes_eqb (client_prefix raw) expected.
 
 (* ---- C16 *)
 
